@@ -376,6 +376,11 @@ func c15Bodies(c *sim.Case) {
 	defer h.w.Close()
 	honest := map[string]any{"id_token": sim.HonestToken(h.w.IdP.SignKey, map[string]any{"aud": ho.o.ClientID, "exp": 1}), "access_token": "at", "refresh_token": "rt", "expires_in": 300, "token_type": "Bearer"}
 	mk := func() (*sim.Behaviour, string) {
+		if sim.Weighted(c, "conn", 8, 1) == 1 {
+			// no HTTP answer at all: the connection is cut before or after the request was processed
+			d := sim.PickStr(c, "conn.cut", "before", "after")
+			return &sim.Behaviour{Name: "connection-cut-" + d, Drop: d, Rotate: true}, "connection-cut-" + d
+		}
 		if sim.Weighted(c, "kind", 3, 2) == 0 {
 			body := genTokenBody(c, honest)
 			return &sim.Behaviour{Name: "raw-body", RawBody: &body, IgnoreGrant: true}, "body:" + short(body, 80)
